@@ -98,6 +98,8 @@ def c02(res: CheckResult) -> None:
               list(F.fam_badkw(res.tier, rng)), ic)
     call_unit(res, "sync / coroutine-function / coroutine-returning / awaitable-returning conditions and captures on "
                    "sync and async callables", list(F.fam_async_placements(res.tier, rng)), ic)
+    call_unit(res, "async public methods (with postconditions) awaiting public methods of the same / another object",
+              list(F.fam_reent_async(res.tier, rng)), ic)
     def_unit(res, "inherited postconditions incl. overrides under foreign decorators: calls judged against the "
                   "effective conjunction for all truth assignments", list(DF.fam_foreign_hier(res.tier, rng)), ic,
              verdicts=True, rng=rng)
@@ -138,6 +140,9 @@ def c09(res: CheckResult) -> None:
               require_outcomes=["Violation", "ErrClass", "ErrInst", "ErrFact", "TypeError"])
     random_unit(res, "random programs beyond the exhaustive bounds", list(F.fam_random(res.tier, rng, "err")), ic)
     call_unit(res, "error factories whose parameters all carry defaults", list(F.fam_errdefaults(res.tier, rng)), ic)
+    call_unit(res, "error factories that went through a functools.wraps decorator", list(F.fam_errf_wrapped(res.tier, rng)), ic)
+    call_unit(res, "inherited preconditions whose errors are instances / factories, overrides called",
+              list(F.fam_err_inherited(res.tier, rng)), ic)
     from icv import tablecheck as T
     T.check_misuse(res, ic, only=lambda cell: cell["m"].startswith("error_"))
     call_unit(res, "contract errors deriving from BaseException, the same contract violated three times in a row",
@@ -440,6 +445,9 @@ def c07(res: CheckResult) -> None:
         rng = random.Random(res.seed)
         call_unit(res, "several precondition groups, a later condition asks for _ARGS: the violation of an earlier "
                        "group (whose message is built) must not disturb it", list(F.fam_wants_args(res.tier, rng)), ic)
+        call_unit(res, "violations whose error is built by a factory / class / instance (every role, sync and async): the "
+                       "configured error reaches the caller, never an error of the library",
+                  [p for p in F.fam_err(res.tier, rng) if p["tag"].startswith("err-")], ic)
 
 
 @check("C20")
